@@ -51,7 +51,10 @@ base = {n: gen(n) for n in TR}
 assert all(t == 'ok' for t, _ in base.values()), base
 summary = {'same': 0, 'refused': 0, 'differs': 0}
 rows = []
+SEEDS = [x for x in os.environ.get('TR_SEEDS', '').split() if x]     # optional: only these changes
 for sid in sorted(os.listdir(os.path.join(V, 'seeded'))):
+    if SEEDS and sid not in SEEDS:
+        continue
     d = os.path.join(V, 'seeded', sid)
     pf = os.path.join(d, 'patch.diff')
     if not os.path.exists(pf):
